@@ -64,7 +64,7 @@ def _task(loop, coro, out, name):
     return loop.create_task(run())
 
 
-def chan_history(e0: int, e1: int, e2: int, e3: int, e4: int, nev: int, lostexc: bool, paused0: bool) -> bool:
+def chan_history(e0: int, e1: int, e2: int, e3: int, e4: int, nev: int, lostexc: bool, paused0: bool, starting: bool = False) -> bool:
     """Open channel with a pending request, a blocked reader, a writer blocked in
     drain() and a wait_closed() waiter; any history of events from {data, pause, resume, peer
     EOF, peer CLOSE, local close / abort / write_eof, connection lost, request
@@ -73,12 +73,12 @@ def chan_history(e0: int, e1: int, e2: int, e3: int, e4: int, nev: int, lostexc:
     after it, and the channel is unregistered; finally losing the connection
     always completes everything that is still pending."""
     evs = [pick(EVS, e) for e in (e0, e1, e2, e3, e4)[:nev]]
-    lostexc, paused0 = cb(lostexc), cb(paused0)
+    lostexc, paused0, starting = cb(lostexc), cb(paused0), cb(starting)
     with notrace():          # the history is concrete from here on: run the real code natively
-        return _chan_history(evs, lostexc, paused0)
+        return _chan_history(evs, lostexc, paused0, starting)
 
 
-def _chan_history(evs, lostexc, paused0):
+def _chan_history(evs, lostexc, paused0, starting=False):
     loop = MiniLoop()
     sess = Sess()
     chan, conn, _ = mkchan(cls=CH.SSHClientChannel, window=64, pktsize=32, loop=loop, session=sess)
@@ -93,10 +93,12 @@ def _chan_history(evs, lostexc, paused0):
     chan.set_write_buffer_limits(high=1, low=0)
     chan.write(b'queued-data')
     _task(loop, sess.drain(None), res, 'drain')
-    if paused0:
+    if starting:
+        chan._recv_paused = 'starting'       # session requests still outstanding: reading has not been started yet
+    elif paused0:
         chan.pause_reading()
     loop.run(100)
-    local_closed = peer_closed = lost = False
+    local_closed = peer_closed = lost = peer_closed_empty = False
     for ev in evs:
         if lost or chan._recv_chan is None:
             break
@@ -110,6 +112,8 @@ def _chan_history(evs, lostexc, paused0):
             elif ev == 'peer_eof':
                 chan._process_eof(96, 0, SSHPacket(b''))
             elif ev == 'peer_close':
+                # with nothing buffered for the application a peer CLOSE is answered and completes the close by itself
+                peer_closed_empty = not chan._recv_buf
                 chan._process_close(97, 0, SSHPacket(b''))
                 peer_closed = True
             elif ev == 'close':
@@ -132,7 +136,7 @@ def _chan_history(evs, lostexc, paused0):
         loop.run(200)
         if loop.exceptions:
             return False
-    finished = lost or (local_closed and peer_closed)
+    finished = lost or (local_closed and peer_closed) or peer_closed_empty
     if finished:
         # an orderly two-sided close (or connection loss) must already have released everything
         if not ('request' in res and 'read' in res and 'closed' in res and 'drain' in res):
@@ -322,7 +326,7 @@ def sftp_client_cleanup(n: int, how: int) -> bool:
 
 OBLIGATIONS = [
     Ob('chan_history', chan_history,
-       sym=dict(e0=R(0, 9), e1=R(0, 9), e2=R(0, 9), e3=R(0, 9), e4=R(0, 9), lostexc=B, paused0=B),
+       sym=dict(e0=R(0, 9), e1=R(0, 9), e2=R(0, 9), e3=R(0, 9), e4=R(0, 9), lostexc=B, paused0=B, starting=B),
        shards=dict(nev=[4], e0=list(range(10)), e4=[0], lostexc=[False]),
        thorough_shards=dict(nev=[5], e0=list(range(10)), e1=list(range(10)), lostexc=[True, False]),
        timeout=300, thorough_timeout=900,
@@ -330,7 +334,7 @@ OBLIGATIONS = [
                   CH.SSHChannel._close_send, CH.SSHChannel._discard_recv, CH.SSHChannel._flush_recv_buf, CH.SSHChannel._cleanup,
                   CH.SSHChannel.process_connection_close, CH.SSHChannel._make_request, CH.SSHChannel.wait_closed,
                   ST.SSHStreamSession.connection_lost, ST.SSHStreamSession.eof_received, ST.SSHStreamSession.read],
-       bounds='4 (thorough 5) events from {data, pause, resume, peer EOF, peer CLOSE, close, abort, write_eof, connection lost, request reply}, reading initially paused or not'),
+       bounds='4 (thorough 5) events from {data, pause, resume, peer EOF, peer CLOSE, close, abort, write_eof, connection lost, request reply}, reading initially started, paused or not yet started (session requests outstanding)'),
     Ob('open_history', open_history, sym=dict(e0=R(0, 2), e1=R(0, 2), e2=R(0, 2)), timeout=120,
        functions=[CH.SSHChannel._open, CH.SSHChannel.process_open_confirmation, CH.SSHChannel.process_open_failure, CH.SSHChannel._cleanup],
        bounds='3 events from {open confirmation, open failure, connection loss} on a channel being opened'),
